@@ -14,6 +14,7 @@ import (
 	"sort"
 	"strings"
 	"sync"
+	"sync/atomic"
 	"time"
 
 	link_solicit "github.com/aperturerobotics/bifrost/link/solicit"
@@ -276,9 +277,9 @@ func twoPeers(c *hx.Ctx) (a, b, other []byte) {
 
 func c30(c *hx.Ctx) {
 	c.Type = "c30_case"
-	c.ShardSize = 50 // symbolic hash comparisons are the expensive part in Coq: more, smaller shards
+	c.ShardSize = 100
 	c.Agree = "c30_agree"
-	c.Rule = "ComputeProtocolHash equality pattern on (peer pair, protocol id, context) pairs incl. every boundary-shifted split of short strings; one real controller with constrained solicitations receiving an incoming solicited stream; two real controllers joined by an in-memory link with solicitations on both sides (peer and transport constraints varied); non-trivial = distinct case with an equality that holds / a directive that is matched"
+	c.Rule = "ComputeProtocolHash equality pattern on (peer pair, protocol id, context) pairs incl. every boundary-shifted split of short strings; one real controller with constrained solicitations receiving an incoming solicited stream; two real controllers joined by an in-memory link with solicitations on both sides (peer and transport constraints varied, sometimes with a failing stream open); SolicitProtocol directives with one (protocol, context) and different constraints added in every order to one real controller bus; non-trivial = distinct case with an equality that holds / a directive that is matched"
 	uni := pairUniverse(c)
 
 	// 1. hash equality pattern
@@ -345,6 +346,9 @@ func c30(c *hx.Ctx) {
 		twoNodes(c, uni)
 	}
 	lateDuplicate(c)
+
+	// 4. directives added to ONE real bus (de-duplication by IsEquivalent)
+	busRuns(c)
 }
 
 // hashCase runs the real hash functions on two (peer pair, pid, ctx) inputs,
@@ -411,6 +415,10 @@ func incoming(c *hx.Ctx, uni [][2][]byte, ownership bool) {
 	defer n.close()
 	for _, s := range sols {
 		n.addSol(s)
+	}
+	if c.Rng.Intn(6) == 0 {
+		// fault injection: one directive instance refuses the value
+		n.rhs[c.Rng.Intn(len(n.rhs))].reject = true
 	}
 	lnk := &fakeLink{uuid: 42, tpt: tpt, local: peer.ID(local), remote: peer.ID(remote)}
 	n.addLink(lnk)
@@ -490,12 +498,15 @@ func incoming(c *hx.Ctx, uni [][2][]byte, ownership bool) {
 		op := opAccept
 		if c.Rng.Intn(4) == 0 {
 			op = opClose
+			if c.Rng.Intn(2) == 0 {
+				op = opCloseErr
+			}
 		} else if c.Rng.Intn(8) == 0 {
 			op = opIsAccepted
 		}
 		ops = append(ops, struct{ idx, op int }{idx, op})
 		v := recv[idx][0].(link_solicit.SolicitMountedStream)
-		r, gotMS := applyOp(v, op)
+		r, gotMS := applyOp(v, cs, op)
 		if r == "RStream" {
 			streams++
 			if gotMS != ms {
@@ -633,6 +644,138 @@ func lateDuplicate(c *hx.Ctx) {
 	conns.closeAll()
 }
 
+// busIncoming: SolicitProtocol directives with the SAME (protocol, context) and
+// different peer/transport constraints are added, in the given order, to one
+// real controller bus (so the bus may merge directives it finds equivalent);
+// a link that some of the constraints allow and some do not; one incoming
+// solicited stream for that (protocol, context). Observed: which references
+// received a value.
+func busIncoming(c *hx.Ctx, sols []solSpec, local, remote []byte, tpt uint64, class string) {
+	bn := newBusNode()
+	defer bn.close()
+	for _, s := range sols {
+		bn.addSol(s)
+	}
+	lnk := &fakeLink{uuid: 43, tpt: tpt, local: peer.ID(local), remote: peer.ID(remote)}
+	bn.addLink(lnk)
+	pid, ctx := sols[0].pid, sols[0].ctx
+	sid := link_solicit.ComputeSessionID(peer.ID(local), peer.ID(remote))
+	h := link_solicit.ComputeProtocolHash(sid, protocol.ID(pid), ctx)
+	spid := protocol.ID(link_solicit_controller.SolicitStreamPrefix + hex.EncodeToString(h))
+	sh := bn.streamHandler(spid, peer.ID(local), peer.ID(remote))
+	if sh == nil {
+		panic("no handler for solicited stream")
+	}
+	ms := &fakeMS{strm: &countStream{}, pid: spid, lnk: lnk}
+	if err := sh.HandleMountedStream(bn.ctx, ms); err != nil {
+		panic(err)
+	}
+	expect := int64(0)
+	for _, s := range sols {
+		if bytes.Equal(s.pid, pid) && bytes.Equal(s.ctx, ctx) && admitsGo(s, remote, tpt) {
+			expect++
+		}
+	}
+	// bounded wait for the expected deliveries, then a short look for extra ones
+	soft := time.Now().Add(3 * time.Second)
+	for bn.total.Load() < expect && time.Now().Before(soft) {
+		time.Sleep(200 * time.Microsecond)
+	}
+	last := int64(-1)
+	for k := 0; k < 4; k++ {
+		time.Sleep(time.Millisecond)
+		if v := bn.total.Load(); v != last {
+			last, k = v, 0
+		}
+	}
+	var emitted []int
+	merged := []string{}
+	for i, rc := range bn.refs {
+		for range rc.values() {
+			emitted = append(emitted, i)
+		}
+		for j := 0; j < i; j++ {
+			if bn.instances[i] == bn.instances[j] {
+				merged = append(merged, fmt.Sprintf("%d=%d", j, i))
+			}
+		}
+	}
+	desc := map[string]any{"kind": "one-bus", "local": hx.Hex(local), "remote": hx.Hex(remote), "transport": tpt,
+		"solicitations_in_order_added": solsDesc(sols), "stream_for": fmt.Sprintf("pid=%q ctx=%q", pid, ctx),
+		"received": fmt.Sprint(emitted), "merged_by_bus": strings.Join(merged, ",")}
+	c.Case(hx.App("Inc", sideTerm(local, remote, tpt), solsTerm(sols), hx.Bytes(local), hx.Bytes(remote), hx.Bytes(pid), hx.Bytes(ctx), intsTerm(emitted)), desc)
+	c.Class(class)
+	if len(emitted) > 0 && len(emitted) < len(sols) {
+		c.Nontrivial("bus" + fmt.Sprint(desc))
+	}
+	for i, s := range sols {
+		want := bytes.Equal(s.pid, pid) && bytes.Equal(s.ctx, ctx) && admitsGo(s, remote, tpt)
+		got := len(bn.refs[i].values())
+		switch {
+		case got > 0 && !want:
+			key := "matched-different-solicitation"
+			if bytes.Equal(s.pid, pid) && bytes.Equal(s.ctx, ctx) {
+				key = "matched-despite-constraint"
+			}
+			c.Failf(key, desc, "solicitation %d %s (added to the bus in this order) received the stream on a link to peer %q over transport %d that its own constraints do not allow", i, solDesc(s), remote, tpt)
+		case got == 0 && want:
+			c.Failf("not-matched-identical-solicitation", desc, "solicitation %d %s did not receive the stream opened for the same protocol and context on a link its constraints allow", i, solDesc(s))
+		case got > 1:
+			c.Failf("value-delivered-twice", desc, "solicitation %d received %d values for one stream", i, got)
+		}
+	}
+}
+
+// busRuns: every ordered pair of constraint shapes, and random triples.
+func busRuns(c *hx.Ctx) {
+	local, remote, other := []byte("peer-L"), []byte("peer-R"), []byte("peer-X")
+	tpt := uint64(2)
+	shapes := func(pid, ctx []byte) []solSpec {
+		return []solSpec{
+			{pid: pid, ctx: ctx},
+			{pid: pid, ctx: ctx, peer: remote},
+			{pid: pid, ctx: ctx, peer: other},
+			{pid: pid, ctx: ctx, tpt: tpt},
+			{pid: pid, ctx: ctx, tpt: tpt + 1},
+			{pid: pid, ctx: ctx, peer: other, tpt: tpt},
+		}
+	}
+	pid, ctx := []byte("dex"), []byte("bucket")
+	sh := shapes(pid, ctx)
+	for i := range sh {
+		for j := range sh {
+			busIncoming(c, []solSpec{sh[i], sh[j]}, local, remote, tpt, "one-bus-ordered-pair")
+		}
+	}
+	n := c.N / 40
+	for k := 0; k < n; k++ {
+		l, r, o := twoPeers(c)
+		t := uint64(1 + c.Rng.Intn(3))
+		p := [][2][]byte{{[]byte("proto/echo"), nil}, {[]byte("dex"), []byte("bucket")}, {[]byte("a"), []byte("bc")}}[c.Rng.Intn(3)]
+		var sols []solSpec
+		for m := 0; m < 3; m++ {
+			s := solSpec{pid: p[0], ctx: p[1]}
+			switch c.Rng.Intn(4) {
+			case 1:
+				s.peer = r
+			case 2:
+				s.peer = o
+			}
+			switch c.Rng.Intn(4) {
+			case 1:
+				s.tpt = t
+			case 2:
+				s.tpt = t + 1
+			}
+			sols = append(sols, s)
+		}
+		if c.Rng.Intn(3) == 0 {
+			sols = append(sols, solSpec{pid: []byte("ab"), ctx: []byte("c")})
+		}
+		busIncoming(c, sols, l, r, t, "one-bus-triple")
+	}
+}
+
 // twoNodes joins two real controllers by an in-memory link.
 func twoNodes(c *hx.Ctx, uni [][2][]byte) {
 	pa, pb, other := twoPeers(c)
@@ -683,6 +826,17 @@ func twoNodes(c *hx.Ctx, uni [][2][]byte) {
 	la := &fakeLink{uuid: 7, tpt: ta, local: peer.ID(pa), remote: peer.ID(pb), other: nb, conns: conns}
 	lb := &fakeLink{uuid: 9, tpt: tb, local: peer.ID(pb), remote: peer.ID(pa), other: na, conns: conns}
 	la.otherLink, lb.otherLink = lb, la
+	// fault injection: the first solicited stream (not the sentinel's) cannot be opened
+	faulty := c.Rng.Intn(6) == 0
+	if faulty {
+		ssid := link_solicit.ComputeSessionID(peer.ID(pa), peer.ID(pb))
+		spid := protocol.ID(link_solicit_controller.SolicitStreamPrefix + hex.EncodeToString(link_solicit.ComputeProtocolHash(ssid, protocol.ID(sentinel.pid), sentinel.ctx)))
+		var failed atomic.Bool
+		fo := func(pid protocol.ID) bool {
+			return strings.HasPrefix(string(pid), link_solicit_controller.SolicitStreamPrefix) && pid != spid && !failed.Swap(true)
+		}
+		la.failOpen, lb.failOpen = fo, fo
+	}
 	addAll := func() {
 		for i := 0; i < len(sa) || i < len(sb); i++ {
 			if i < len(sa) {
@@ -719,8 +873,10 @@ func twoNodes(c *hx.Ctx, uni [][2][]byte) {
 			}
 		}
 	}
-	countExp(sa, sb, pb, pa, ta, tb)
-	countExp(sb, sa, pa, pb, tb, ta)
+	if !faulty {
+		countExp(sa, sb, pb, pa, ta, tb)
+		countExp(sb, sa, pa, pb, tb, ta)
+	}
 	settle(na, nb, expect, deadline)
 	ra, rb := na.received(), nb.received()
 	na.close()
@@ -746,10 +902,17 @@ func twoNodes(c *hx.Ctx, uni [][2][]byte) {
 		c.Failf("sentinel-never-matched", desc, "two identical unconstrained solicitations were not matched within 10s")
 		return
 	}
-	c.Case(hx.App("Two", sideTerm(pa, pb, ta), solsTerm(sa), sideTerm(pb, pa, tb), solsTerm(sb), intsTerm(fa), intsTerm(fb)), desc)
-	c.Class(fmt.Sprintf("two-%dmatched", min(len(fa), 3)))
-	if len(fa) > 0 {
-		c.Nontrivial("two" + fmt.Sprint(desc))
+	if faulty {
+		// one match has no stream: only "nobody receives what is not theirs" is judged
+		desc["fault"] = "first solicited OpenMountedStream returned an error"
+		c.Eval()
+		c.Class("two-open-fails")
+	} else {
+		c.Case(hx.App("Two", sideTerm(pa, pb, ta), solsTerm(sa), sideTerm(pb, pa, tb), solsTerm(sb), intsTerm(fa), intsTerm(fb)), desc)
+		c.Class(fmt.Sprintf("two-%dmatched", min(len(fa), 3)))
+		if len(fa) > 0 {
+			c.Nontrivial("two" + fmt.Sprint(desc))
+		}
 	}
 	// direct oracle
 	check := func(name string, mine, theirs []solSpec, got [][]directive.Value, myRemote, theirRemote []byte, myT, theirT uint64) {
@@ -769,7 +932,7 @@ func twoNodes(c *hx.Ctx, uni [][2][]byte) {
 					}
 				}
 				c.Failf(key, desc, "side %s solicitation %d %s received a stream although no admitted solicitation of the other side names the same protocol and context", name, i, solDesc(s))
-			case len(got[i]) == 0 && want:
+			case len(got[i]) == 0 && want && !faulty:
 				c.Failf("not-matched-identical-solicitation", desc, "side %s solicitation %d %s was not matched although the other side solicits the same protocol and context and all constraints admit the link", name, i, solDesc(s))
 			case len(got[i]) > 1:
 				c.Failf("matched-twice", desc, "side %s solicitation %d received %d streams", name, i, len(got[i]))
@@ -786,12 +949,13 @@ const (
 	opAccept = iota
 	opClose
 	opIsAccepted
+	opCloseErr // Close() while the underlying stream's Close returns an error
 )
 
-var opNames = []string{"Accept", "Close", "IsAccepted"}
+var opNames = []string{"Accept", "(Close true)", "IsAccepted", "(Close false)"}
 
 // applyOp runs one call on a real value and returns the model's result name.
-func applyOp(v link_solicit.SolicitMountedStream, op int) (string, any) {
+func applyOp(v link_solicit.SolicitMountedStream, cs *countStream, op int) (string, any) {
 	switch op {
 	case opAccept:
 		ms, already, err := v.AcceptMountedStream()
@@ -803,8 +967,14 @@ func applyOp(v link_solicit.SolicitMountedStream, op int) (string, any) {
 		default:
 			return "RStream", ms
 		}
-	case opClose:
+	case opClose, opCloseErr:
+		if cs != nil {
+			cs.failNext.Store(op == opCloseErr)
+		}
 		b := v.(interface{ Close() bool }).Close()
+		if cs != nil {
+			cs.failNext.Store(false)
+		}
 		return "(RBool " + hx.Bool(b) + ")", nil
 	default:
 		b := v.(interface{ IsAccepted() bool }).IsAccepted()
@@ -839,20 +1009,24 @@ func c31(c *hx.Ctx) {
 		streams := 0
 		closedTrue := false
 		for i, op := range ops {
-			r, _ := applyOp(v, op)
+			before := cs.closes.Load()
+			r, _ := applyOp(v, cs, op)
 			res[i] = r
 			names[i] = opNames[op]
 			desc := map[string]any{"kind": "value-sequential", "init": kind, "ops": strings.Join(names[:i+1], ","), "results": strings.Join(res[:i+1], ",")}
 			if r == "RStream" {
 				streams++
 				if closedTrue {
-					c.Failf("accept-after-close", desc, "AcceptMountedStream returned the stream after Close() had returned true")
+					c.Failf("accept-after-close", desc, "AcceptMountedStream returned the stream after a Close() call that returned true or reached the underlying stream")
 				}
 				if cs.closes.Load() > 0 {
 					c.Failf("accepted-stream-closed", desc, "the stream handed out had been closed by the solicitation")
 				}
 			}
-			if op == opClose && r == "(RBool true)" {
+			if (op == opClose || op == opCloseErr) && cs.closes.Load() > before {
+				closedTrue = true // the call closed the underlying stream (whatever that close returned)
+			}
+			if (op == opClose || op == opCloseErr) && r == "(RBool true)" {
 				closedTrue = true
 				if streams > 0 {
 					c.Failf("accepted-stream-closed", desc, "Close() closed a stream that had been accepted")
@@ -879,14 +1053,14 @@ func c31(c *hx.Ctx) {
 	for n := 0; n <= maxLen; n++ {
 		total := 1
 		for i := 0; i < n; i++ {
-			total *= 3
+			total *= 4
 		}
 		for code := 0; code < total; code++ {
 			ops := make([]int, n)
 			x := code
 			for i := range ops {
-				ops[i] = x % 3
-				x /= 3
+				ops[i] = x % 4 // Accept, Close, IsAccepted, Close with a failing stream close
+				x /= 4
 			}
 			emitSeq(0, ops, "value-exhaustive")
 			if n <= 2 {
@@ -902,8 +1076,10 @@ func c31(c *hx.Ctx) {
 			switch r := c.Rng.Intn(10); {
 			case r < 5:
 				ops[j] = opAccept
-			case r < 8:
+			case r < 7:
 				ops[j] = opClose
+			case r < 9:
+				ops[j] = opCloseErr
 			default:
 				ops[j] = opIsAccepted
 			}
@@ -930,6 +1106,10 @@ func c31(c *hx.Ctx) {
 		var mtx sync.Mutex
 		var wg sync.WaitGroup
 		start := make(chan struct{})
+		failing := i%4 == 1
+		if failing {
+			cs.failAll.Store(true) // every underlying stream close returns an error
+		}
 		// close-window schedule: the Accept calls start while a Close is inside
 		// its critical section (the stream's own Close takes a while)
 		window := kind == 0 && nc > 0 && na > 0 && i%3 == 0
@@ -962,7 +1142,7 @@ func c31(c *hx.Ctx) {
 				if (g+i)%3 == 0 {
 					runtime.Gosched()
 				}
-				r, _ := applyOp(v, op)
+				r, _ := applyOp(v, nil, op)
 				if op == opClose {
 					r = "C" + r
 				}
@@ -974,7 +1154,7 @@ func c31(c *hx.Ctx) {
 		close(start)
 		wg.Wait()
 		obs := []int{counts["RStream"], counts["RAlready"], counts["RErr"], counts["C(RBool true)"], counts["C(RBool false)"], int(cs.closes.Load())}
-		desc := map[string]any{"kind": "value-concurrent", "init": kind, "accepts": na, "closes": nc,
+		desc := map[string]any{"kind": "value-concurrent", "init": kind, "accepts": na, "closes": nc, "stream_close_fails": failing,
 			"stream/already/err/closeTrue/closeFalse/streamCloses": fmt.Sprint(obs)}
 		if obs[0] > 1 {
 			c.Failf("two-owners", desc, "%d concurrent AcceptMountedStream calls returned the stream", obs[0])
@@ -982,9 +1162,9 @@ func c31(c *hx.Ctx) {
 		if obs[0] > 0 && obs[5] > 0 {
 			c.Failf("accepted-stream-closed", desc, "the stream was handed out and closed by the solicitation")
 		}
-		// after everything: a value whose Close returned true must refuse Accept
-		if obs[3] > 0 {
-			if r, _ := applyOp(v, opAccept); r == "RStream" {
+		// after everything: a value whose Close returned true or reached the stream must refuse Accept
+		if obs[3] > 0 || obs[5] > 0 {
+			if r, _ := applyOp(v, nil, opAccept); r == "RStream" {
 				c.Failf("accept-after-close", desc, "AcceptMountedStream returned the stream after Close() had returned true")
 			}
 		}
